@@ -477,9 +477,6 @@ SIGS = {
     # x is a dictionary or an iterator (or anything but a list / tuple that can be iterated)
     "subscript_of_non_sequence": lambda c: c["rule"] == "RSub" and any(
         e[0] == "sub" and (_lookup(c["env"], e[1]) or A(0))[0] in ("dict", "iter") for e in walk_e(c["p"])),
-    # the element mentions the name x_i the rule invents
-    "new_name_captured": lambda c: c["rule"] == "RSub" and any(
-        e[0] == "sub" and b_mentions(e[3], join(e[1], e[2])) for e in walk_e(c["p"])),
     "zip_zip_not_identity": lambda c: c["rule"] == "RTr" and _zz_outside_guard(c),
 }
 
@@ -501,7 +498,8 @@ WITNESSES = [
     ("F02idx-3", "performance.replace_subscript_looping", _F + "print([f()[i] for i in range(len(f()))])\n", True),
     ("F02idx-4", "performance.replace_subscript_looping", "x = [1, 2, 3, 4]\ntry:\n    print([x.pop() + x[i] for i in range(len(x))])\nexcept IndexError:\n    print('short', x)\n", True),
     ("F02idx-1", "performance.replace_subscript_looping", "x = {1: 'a'}\ntry:\n    print([x[i] for i in range(len(x))])\nexcept KeyError:\n    print('no key 0')\n", True),
-    ("F02idx-2", "performance.replace_subscript_looping", "x = [1, 2]\nx_i = 10\nprint([x[i] + x_i for i in range(len(x))])\n", True),
+    ("F02idx-2", "performance.replace_subscript_looping", "x = [1, 2]\nx_i = 10\nprint([x[i] + x_i for i in range(len(x))])\n", False),
+    ("F02idx-2", "performance.replace_subscript_looping", "x = [1, 2]\nprint([x[i] + x_i for i in range(len(x))] if x == [] else 0)\n", False),
     ("F02idx-5", "fixes.simplify_transposes", "x = [[1, 2], [3, 4]]\nprint(list(zip(*zip(*x))))\n", True),
     ("F02idx-5", "fixes.simplify_transposes", "x = [[1, 2], [3]]\nfor r in zip(*zip(*x)):\n    print(list(r))\n", True),
     ("F02idx-6", "fixes.inline_math_comprehensions", _F + "y = list(f())\nz = sum(y)\nprint(z)\n", True),
@@ -516,7 +514,7 @@ WITNESSES = [
     ("triple-ok", "fixes.simplify_transposes", "x = [[1, 2], [3]]\nprint(list(zip(*zip(*zip(*x)))))\n", False),
 ]
 # which of the witness programs the rule must change (a rule that stops firing would make them pass trivially)
-MUST_FIRE = {"F02idx-3", "F02idx-4", "F02idx-1", "F02idx-2", "F02idx-5", "F02idx-6", "F02idx-7", "inline-ok", "sub-ok", "triple-ok"}
+MUST_FIRE = {"F02idx-3", "F02idx-4", "F02idx-1", "F02idx-5", "F02idx-6", "F02idx-7", "inline-ok", "sub-ok", "triple-ok"}
 
 
 def run_text(src: str):
@@ -596,8 +594,8 @@ def check(run, mods, wd, rnd) -> dict:
     files, meta = [], []
     for k, shard in _shards(cases):
         f = wd / f"irule_{k}.v"
-        body = ";\n ".join(f"({c[0]}, {g_expr(c[2])}, {g_expr(c[3])})" for c in shard)
-        f.write_text(HEADER + f"Definition cases : list (irule * expr * expr) := [\n {body}\n].\n"
+        body = ";\n ".join(f"({c[0]}, [{'; '.join(gn(n) for n, _ in c[1])}], {g_expr(c[2])}, {g_expr(c[3])})" for c in shard)
+        f.write_text(HEADER + f"Definition cases : list (irule * list name * expr * expr) := [\n {body}\n].\n"
                      "Eval vm_compute in (bad_idx rule_case_ok cases).\n")
         files.append(f)
         meta.append(("rule", shard))
@@ -700,11 +698,12 @@ def check(run, mods, wd, rnd) -> dict:
             run.violation({"tranche": "idx", "kind": "property-oracle", "site": RULES.get(c["rule"], c["rule"]),
                            "source": c["source"], "output": c["output"], "obs_before": repr(c["before"]),
                            "obs_after": repr(c["after"]), "witness": c.get("witness"),
+                           "kernel": "RulesIdxInlModel" if c["rule"] == INL.SITE else "RulesIdxModel",
                            "explanation": "the program behaves differently after the rule (exception class / value of y / "
                                           "printed text) and no listed finding covers it"}, True)
     if not failures:
         for d in (disagreements + sem_bad + problems)[:5]:
-            run.violation({"tranche": "idx", **d, "kernel": "RulesIdxModel",
+            run.violation({"tranche": "idx", **d, "kernel": "RulesIdxInlModel" if d.get("rule") == INL.SITE else "RulesIdxModel",
                            "explanation": "model and implementation (or model and CPython) disagree; executing before/after "
                                           "found no difference on the generated programs"}, False)
     elif disagreements or sem_bad or problems:
